@@ -5,6 +5,8 @@ NAME=$1; shift
 ID=${NAME%%-*}; K=${NAME##*-}
 WT=/tmp/seed-$ID
 git -C $WT checkout -q -- . ; git -C $WT clean -fdq -e out
+# keep the scratch worktree at /repo's current HEAD (later fix: commits must be in the tree the patch is applied to)
+git -C $WT checkout -q --detach $(git -C /repo rev-parse HEAD)
 git -C $WT apply /verif/seeded/$NAME/patch.diff || { echo "patch does not apply"; exit 3; }
 for id in "$@"; do
   echo "== check $id against $NAME ${ONLY:+(only $ONLY)}"
